@@ -294,7 +294,7 @@ class Ctx:
         return out
 
     def run_cases(self, binary, adapter, cases, workers=None, timeout_ms=20000, args=None, name=None,
-                  total_timeout=3000):
+                  total_timeout=3000, retry_hangs=True):
         """Run cases (list of JSON-able objects, or a path to an ndjson file) through
         `<binary> run <adapter>`: each case is executed in a worker child process; a crash or a
         per-case timeout becomes a failed verdict for that case only.
@@ -327,6 +327,21 @@ class Ctx:
                 if line:
                     res.append(json.loads(line))
         res.sort(key=lambda r: r["id"])
+        # A hang must persist: verdicts that are timeouts (the whole case, or a step the adapter flagged with a
+        # key ending in ":hang") are re-run once with little parallelism, so that a loaded machine is not mistaken
+        # for a hang in the code under test.
+        if retry_hangs and not isinstance(cases, str):
+            slow = [r["id"] for r in res if not r.get("ok") and (r.get("key") == "timeout" or str(r.get("key", "")).endswith(":hang")
+                                                                 or ":hang:" in str(r.get("key", "")))]
+            if slow and len(slow) <= 400:
+                byid = {c["id"]: c for c in cases if isinstance(c, dict) and "id" in c}
+                again = [byid[i] for i in slow if i in byid]
+                if again:
+                    self.note("re-running %d case(s) that timed out" % len(again))
+                    res2 = self.run_cases(binary, adapter, again, workers=2, timeout_ms=timeout_ms * 2, args=args,
+                                          name=name + ".retry", total_timeout=total_timeout, retry_hangs=False)
+                    new = {r["id"]: r for r in res2}
+                    res = [new.get(r["id"], r) for r in res]
         return res
 
     def run_tool(self, binary, args, timeout=3000, stdin=None):
@@ -407,15 +422,16 @@ class Ctx:
             self.note("known finding not observed in this run (stale or not reached at this tier): " + e["key"])
         rc = 0
         if len(violations) > 8:
-            print("(%d distinct violations; printing the first 8, all are in the evidence/replay directory)" % len(violations))
-        for f in violations[:8]:
+            print("(%d distinct violations; printing the first 8, replay files are written for the first 40)" % len(violations))
+        for n, f in enumerate(violations[:40]):
             h = hashlib.sha1((self.prop + f["key"]).encode()).hexdigest()[:12]
             path = os.path.join(REPLAYS, "%s-%s.json" % (self.prop, h))
             with open(path, "w") as fh:
                 json.dump({"property": self.prop, "key": f["key"], "what": f["what"], "tier": self.tier,
                            "seed": self.seed, "replay": f["replay"]}, fh, indent=1, default=str)
-            print("VIOLATION property=%s replay=%s" % (self.prop, path))
-            print("  key=%s count=%d: %s" % (f["key"], f["count"], str(f["what"])[:600]))
+            if n < 8:
+                print("VIOLATION property=%s replay=%s" % (self.prop, path))
+                print("  key=%s count=%d: %s" % (f["key"], f["count"], str(f["what"])[:600]))
             rc = 1
         if violations:
             with open(os.path.join(REPLAYS, "%s-all.json" % self.prop), "w") as fh:
